@@ -219,6 +219,123 @@ fn chunk_suffix<const B: usize, const TERM: bool, const N: usize>() {
  "thorough": "[(1,'true',3,'last'),(0,'true',1,'last'),(1,'false',2,'data'),(0,'false',3,'data')]"}
 @*/
 
+// ---------------------------------------------------------------------------------------------
+// chunk header: WaitingChunkPrefix(buffered B bytes of an incomplete chunk-size line), N bytes offered
+// ---------------------------------------------------------------------------------------------
+fn hexval(b: u8) -> Option<u64> {
+    match b {
+        b'0'..=b'9' => Some((b - b'0') as u64),
+        b'a'..=b'f' => Some((b - b'a') as u64 + 10),
+        _ => None,
+    }
+}
+
+/// reference (RFC 9112 7.1, no extensions in the alphabet): 1*HEXDIG CRLF.  Some(Ok((pos, size))) complete,
+/// Some(Err(())) malformed, None incomplete.
+fn ref_chunk_line(t: &[u8]) -> Option<Result<(usize, u64), ()>> {
+    let mut i = 0;
+    let mut size = 0u64;
+    while i < t.len() {
+        match hexval(t[i]) {
+            Some(v) => size = size * 16 + v,
+            None => break,
+        }
+        i += 1;
+    }
+    if i == t.len() {
+        return None;
+    }
+    if t[i] != b'\r' {
+        return Some(Err(()));
+    }
+    if i + 1 == t.len() {
+        return None;
+    }
+    if t[i + 1] != b'\n' {
+        return Some(Err(()));
+    }
+    Some(Ok((i + 2, size)))
+}
+
+fn chunk_prefix<const B: usize, const N: usize, const T: usize>() {
+    // T = B + N
+    let pre: [u8; B] = kani::any();
+    let (raw, data) = sym_static::<N>();
+    let mut total = [0u8; T];
+    let mut i = 0;
+    while i < T {
+        let b = if i < B { pre[i] } else { raw[i - B] };
+        kani::assume(b == b'1' || b == b'a' || b == b'0' || b == b'\r' || b == b'\n');
+        total[i] = b;
+        i += 1;
+    }
+    kani::assume(hexval(total[0]).is_some()); // an empty size field is left to httparse's leniency
+    // representation invariant: what is buffered is an incomplete chunk-size line
+    kani::assume(B == 0 || ref_chunk_line(&pre).is_none());
+    prefix_sink::reset([0, 0, 0, 0]);
+    let mut ps = ManuallyDrop::new(PrefixSink);
+    let mut buffer = BytesMut::with_capacity(16);
+    buffer.extend_from_slice(&pre);
+    let mut s = ManuallyDrop::new(ForwardedStreamSink {
+        state: SinkState::WaitingChunkPrefix(SinkWaitingChunkPrefix { buffer, sink: mk_sink(&mut ps) }),
+        fake_unsent: false,
+        id: log_utils::IdChain::empty(),
+    });
+    let r = pipe::Sink::write(&mut *s, data);
+    assert!(prefix_sink::writes() == 0, "C17.prefix.leak: chunk framing was delivered to the client as body");
+    match ref_chunk_line(&total) {
+        None => {
+            assert!(matches!(&r, Ok(t) if t.is_empty()), "C17.prefix.wait: an incomplete chunk-size line must be consumed and waited for");
+            match &s.state {
+                SinkState::WaitingChunkPrefix(x) => {
+                    assert!(x.buffer.len() == T, "C17.prefix.buffered: bytes of an incomplete chunk-size line are lost or duplicated");
+                    let mut i = 0;
+                    while i < T {
+                        assert!(x.buffer[i] == total[i], "C17.prefix.buffered_content: buffered bytes altered");
+                        i += 1;
+                    }
+                }
+                _ => assert!(false, "C17.prefix.state_wait: state left the chunk-header state before the line was complete"),
+            }
+            kani::cover!(true, "C17.cover.prefix_partial");
+        }
+        Some(Err(())) => {
+            assert!(r.is_err(), "C17.prefix.accepts_garbage: a malformed chunk-size line is accepted");
+            kani::cover!(true, "C17.cover.prefix_malformed");
+        }
+        Some(Ok((pos, size))) => match &r {
+            Err(_) => assert!(false, "C17.prefix.rejected: a well-formed chunk-size line is rejected"),
+            Ok(tail) => {
+                assert!(tail.len() == T - pos, "C17.prefix.tail_len: the bytes after the chunk-size line (chunk data) are lost or duplicated");
+                let mut i = 0;
+                while i < T - pos {
+                    assert!(tail[i] == total[pos + i], "C17.prefix.tail_content: the bytes after the chunk-size line are not returned unchanged");
+                    i += 1;
+                }
+                if size == 0 {
+                    assert!(matches!(&s.state, SinkState::WaitingChunkSuffix(x) if x.terminating_chunk && x.buffer.is_empty()), "C17.prefix.last: a zero-size chunk must lead to the terminating state");
+                } else {
+                    assert!(matches!(&s.state, SinkState::TransferringBodyChunked(x) if x.remaining_chunk_size == Some(size)), "C17.prefix.size: chunk size is not the hexadecimal value of the line");
+                }
+                if !tail.is_empty() {
+                    assert!(s.fake_unsent, "C17.prefix.wait_after: the remainder after a chunk-size line must be processable at once");
+                }
+                kani::cover!(size > 0 && !tail.is_empty(), "C17.cover.prefix_complete_with_data");
+                kani::cover!(size == 0, "C17.cover.prefix_last_chunk");
+            }
+        },
+    }
+    std::mem::forget(r);
+}
+
+/*@gen
+{"name": "c17_chunk_prefix_buffered{0}_write{1}", "call": "chunk_prefix::<{0}, {1}, {2}>()", "unwind": 12, "stubs": ["bytes", "bytesmut", "fmt", "nofree"], "core": true,
+ "bound": "chunk-size line: {0} byte(s) of an incomplete line already buffered, a write of exactly {1} bytes; contents symbolic over the alphabet 0, 1, a, CR, LF",
+ "desc": "one transition of the chunk-header state equals the reference: incomplete lines are buffered losslessly, malformed ones rejected, a complete line yields its hexadecimal size and returns exactly the bytes that follow it",
+ "encodes": ["http_forwarded_stream::ForwardedStreamSink::on_encoded_chunk_prefix", "httparse::parse_chunk_size (third-party, executed for real)"],
+ "quick": "[(0,1,1),(0,3,3),(0,5,5),(1,2,3),(2,3,5),(3,1,4)]", "thorough": "[(0,2,2),(0,4,4),(1,1,2),(1,4,5),(2,1,3),(2,2,4),(4,1,5)]"}
+@*/
+
 /// wait_writable per state: immediate when the previous write only stopped at a framing boundary, delegated to the
 /// client-side sink inside a body, an error only where no response is in progress.
 fn wait_table<const KIND: usize, const FAKE: bool>() {
